@@ -448,4 +448,10 @@ theorem uvListLaw_ab : UVListLaw [97, 44, 98] := by
 theorem laws_star : UniqueLaw [42] ∧ UVListLaw [42] := by
   constructor <;> (intro h; exact absurd h (by decide))
 
+
+/-- a matcher whose clauses are all `*` satisfies the laws vacuously -/
+theorem laws_of_star_only {pm : PM} (h : ∀ e ∈ allEntries pm, ∀ c ∈ e.clauses, c = [42]) : ClauseLaws pm := by
+  intro e he c hc
+  rw [h e he c hc]; exact laws_star
+
 end Muscle.Reflector
